@@ -1,0 +1,88 @@
+//go:build verif
+
+// Package verifhook provides crash-point markers for the verification
+// harness (build tag "verif" only).
+//
+//	VERIF_CRASH_AT=<name>#<n>   kill this process with SIGKILL at the n-th hit (1-based) of point <name>
+//	VERIF_TRACE_FILE=<path>     append "<pid> <name>\n" for every hit
+//	VERIF_WAIT_AT=<name>#<n>    at the n-th hit of <name>: create <VERIF_WAIT_FILE>.reached, then block until
+//	VERIF_WAIT_FILE=<path>      <path> exists (at most 60 s); used to force one interleaving of two processes
+//
+// With none of the variables set Point only counts.
+package verifhook
+
+import (
+	"fmt"
+	"os"
+	"strconv"
+	"strings"
+	"sync"
+	"syscall"
+	"time"
+)
+
+var (
+	mu     sync.Mutex
+	counts = map[string]int{}
+
+	once      sync.Once
+	crashName string
+	crashN    int
+	waitName  string
+	waitN     int
+	waitFile  string
+	traceFile string
+)
+
+func parseSpec(s string) (string, int) {
+	if s == "" {
+		return "", 0
+	}
+	name, num, ok := strings.Cut(s, "#")
+	n := 1
+	if ok {
+		if v, err := strconv.Atoi(num); err == nil && v > 0 {
+			n = v
+		}
+	}
+	return name, n
+}
+
+func setup() {
+	crashName, crashN = parseSpec(os.Getenv("VERIF_CRASH_AT"))
+	waitName, waitN = parseSpec(os.Getenv("VERIF_WAIT_AT"))
+	waitFile = os.Getenv("VERIF_WAIT_FILE")
+	traceFile = os.Getenv("VERIF_TRACE_FILE")
+}
+
+// Point marks a durable step of cache population.
+func Point(name string) {
+	once.Do(setup)
+	mu.Lock()
+	counts[name]++
+	n := counts[name]
+	if traceFile != "" {
+		if f, err := os.OpenFile(traceFile, os.O_APPEND|os.O_CREATE|os.O_WRONLY, 0o644); err == nil {
+			fmt.Fprintf(f, "%d %s\n", os.Getpid(), name)
+			f.Close()
+		}
+	}
+	mu.Unlock()
+	if name == crashName && n == crashN {
+		// SIGKILL cannot be caught: no deferred function, no cleanup runs.
+		_ = syscall.Kill(os.Getpid(), syscall.SIGKILL)
+		select {}
+	}
+	if name == waitName && n == waitN && waitFile != "" {
+		if f, err := os.Create(waitFile + ".reached"); err == nil {
+			f.Close()
+		}
+		deadline := time.Now().Add(60 * time.Second)
+		for time.Now().Before(deadline) {
+			if _, err := os.Stat(waitFile); err == nil {
+				return
+			}
+			time.Sleep(2 * time.Millisecond)
+		}
+	}
+}
